@@ -98,6 +98,9 @@ def q1_q4_q5_scanner(ck):
                        "character '%s' sets piece %s, whose letter in the writer's table is '%s'" % (ch, pv, letters.get(pv)), "'%s' -> %s" % (ch, pv))
             elif setter == "set_is_capture":
                 cap = any(c[0] == "call" and c[1].endswith("::eq") and any(const_value(x) == "x" or (x[0] == "const" and "'x'" in show(x)) or _is_char_some(x, "x") for x in walk(c)) and tk is True for c, tk in g)
+                # `if iter.next_if_eq(&'x').is_some()`
+                cap = cap or any(tk is True and is_call(c, "Option::<T>::is_some") and any(
+                    is_call(y, "next_if_eq") and any(const_value(z) == "x" or (z[0] == "const" and "'x'" in show(z)) for z in walk(y)) for y in walk(c)) for c, tk in g)
                 ck.req(cap and const_value(arg) is True, "Q1.capture", setter, b.where(line), "the capture flag is not set exactly on the character 'x'")
     ck.floor("Q1", n_entries, 42, "character arms of the SAN scanner")
     want = {"set_promotion": {"Q", "R", "B", "N"}, "set_piece": {"K", "Q", "R", "B", "N", "P"}}
@@ -308,6 +311,18 @@ FIELD_ATTR = {
 }
 
 
+def _unalias_move(prog, t):
+    """`m.resulting_piece()` is `m.promotion().unwrap_or(m.piece())` when its body says so."""
+    if is_call(t, MOVE + "resulting_piece") and len(t[2]) == 1:
+        rb = prog.bodies.get(MOVE + "resulting_piece")
+        if rb is not None:
+            rt = return_term(prog, prog.raw_body(MOVE + "resulting_piece"))
+            if rt is not None and is_call(rt, "Option::<T>::unwrap_or") and is_call(rt[2][0], MOVE + "promotion") and is_call(rt[2][1], MOVE + "piece"):
+                from terms import subst
+                return subst(rt, {1: t[2][0]})
+    return t
+
+
 def _eq_of(t, pred):
     """t is `param2 == <expr>` (derived PartialEq call or primitive Eq) with pred(expr)."""
     if t[0] == "call" and t[1].endswith("::eq") and len(t[2]) == 2:
@@ -335,11 +350,51 @@ def q3_query_matching(ck):
             if a[0][0] == "field" and a[0][1] == ("param", 1) and a[1][0] == "agg" and a[1][1].startswith("closure:"):
                 # form 1: field.map(|x| x == attr).unwrap_or(true) negated;  form 2: field.is_some_and(|x| x != attr)
                 maps.append((a[0][2], a[1][1][len("closure:"):], bb, t, callee_name(t).endswith("is_some_and")))
-    ck.floor("Q3", len(maps), 8, "field tests in MoveQuery::test")
+    # form 4, written out in the function: `match self.field { Some(x) if x != attr(m) => return false, _ => {} }`
+    inline_tests = []
+    for bb, blk in enumerate(b.blocks):
+        t = blk["term"]
+        if t["k"] != "switch" or blk.get("cleanup"):
+            continue
+        c = tb.operand(t["discr"])
+        neg = False
+        while c[0] == "un" and c[1] == "Not":
+            c = c[2]
+            neg = not neg
+        cmpf = None
+        if c[0] == "bin" and c[1] in ("Eq", "Ne"):
+            cmpf, ops = c[1], (c[2], c[3])
+        elif c[0] == "call" and (c[1].endswith("::eq") or c[1].endswith("::ne")) and len(c[2]) == 2:
+            cmpf, ops = ("Eq" if c[1].endswith("::eq") else "Ne"), c[2]
+        if cmpf is None:
+            continue
+        for payload, other in (ops, ops[::-1]):
+            if payload[0] == "field" and payload[1][0] == "variant" and payload[1][2] == "Some" and payload[1][1][0] == "field" and payload[1][1][1] == ("param", 1):
+                fld = payload[1][1][2]
+                # equality term in the shape the closure predicates expect: param 2 of a closure is the payload
+                eq = ("bin", "Eq", ("param", 2), _unalias_move(prog, other))
+                # the mismatch edge must lead to `return false`: decided below by Q3.true_after_all over test_blocks
+                # the test as a whole starts at the switch over the field's discriminant (a None field needs no comparison)
+                dom_ = cfg.dominators(b)
+                start = bb
+                for d in sorted(dom_.get(bb, ())):
+                    td = b.blocks[d]["term"]
+                    if td["k"] == "switch":
+                        cd = tb.operand(td["discr"])
+                        if cd == ("discr", ("field", ("param", 1), fld)):
+                            start = d
+                inline_tests.append((fld, eq, start))
+    ck.floor("Q3", len(maps) + len(inline_tests), 8, "field tests in MoveQuery::test")
     adt = ck.adt("weechess_core::moves::MoveQuery", "Q3")
     fields = [f["name"] for f in adt["variants"][0]["fields"]]
     tested = set()
     test_blocks = []
+    for fld, eq, bb in inline_tests:
+        pred = FIELD_ATTR.get(fld)
+        good = pred is not None and pred(eq, ("param", 2))
+        ck.req(good, "Q3.field", fld, b.where(), "query field `%s` is compared with %s, not with the like-named attribute of the move" % (fld, show(eq)[:160]), show(eq)[:100])
+        tested.add(fld)
+        test_blocks.append(bb)
     for fld, cname, bb, t, negated in maps:
         cb = prog.body(cname)
         rt = return_term(prog, cb)
